@@ -253,6 +253,11 @@ func runC20(r *Run) int {
 	for _, c := range allCodes {
 		cands = append(cands, " "+c, c+" ", c+"\n", c+"\x00", "\t"+c, c+c, c+":"+c, "/"+c, c+"/", "é"+c)
 	}
+	for _, c := range allCodes {
+		for _, b := range []string{"\x00", "\x00\x00", "\x01", "\x7f", "\x80", "\xff", "+", "-", "0"} {
+			cands = append(cands, b+c, c+b, b+c+b)
+		}
+	}
 	cands = append(cands, "None", "High", "Low", "Network", "NOTDEFINED", "Not Defined", "x", "nd", "Nd", "poc", "\xff", string(make([]byte, 4096)))
 	var wsum atomic.Int64
 	// two passes: the second one runs after every metric of both versions has been looked up (a lookup
@@ -352,7 +357,7 @@ func checkVersions(w *W, cands []string, repeats int) {
 		}
 		w.DistinctS("codes", "version/"+label)
 	}
-	others := append([]string{"3", "3.", "3.2", "3.00", "3.10", "03.1", "2.0", "4.0", "1.0", "3.1 ", " 3.1", "3,1", "v3.1", "unknown", "3.1.0", "٣.١"}, cands...)
+	others := append([]string{"+3.0", "+3.1", "003.1", "3.+1", "3.01", "３.１", "3.1\x00", "\x003.1", "3", "3.", "3.2", "3.00", "3.10", "03.1", "2.0", "4.0", "1.0", "3.1 ", " 3.1", "3,1", "v3.1", "unknown", "3.1.0", "٣.١"}, cands...)
 	for _, o := range others {
 		if o == "3.0" || o == "3.1" {
 			continue
